@@ -8,13 +8,13 @@ use serde::{Deserialize, Serialize};
 use text2num::digit_string::DigitString;
 use text2num::error::Error;
 use text2num::verif::{tokenize, BasicToken};
-use text2num::{find_numbers, replace_numbers_in_text, LangInterpreter};
+use text2num::{find_numbers, find_numbers_iter, replace_numbers_in_text, LangInterpreter};
 
 use crate::c02::gen_text;
 use crate::driver::{guarded, Check, RunResult, Stats, Violation};
 use crate::pools::{langs, threshold_of, POOLS, THRESHOLDS};
 use crate::rng::{Fp, Rng};
-use crate::stream::{gen_number_phrase, GenCfg};
+use crate::stream::{gen_number_phrase, GenCfg, Log, SimSource, TokSpec};
 use crate::with_lang;
 
 #[derive(Clone, Debug, Serialize, Deserialize)]
@@ -29,9 +29,19 @@ pub struct Case {
     pub x: String,
     pub p: String,
     pub y: String,
+    /// crashed-session fault: a scan of these words on the same thread is abandoned after
+    /// `abort_requests` lazy requests (iterator dropped mid-stream) or dies in a caller callback
+    /// at seam crossing `abort_crash_at`; afterwards rewrite(A S B) must be what it was before
+    #[serde(default)]
+    pub abort_words: Vec<String>,
+    #[serde(default)]
+    pub abort_requests: usize,
+    #[serde(default)]
+    pub abort_crash_at: u64,
 }
 
-const NEUTRAL: [&str; 40] = [
+const NEUTRAL: [&str; 52] = [
+    "λευκά", "μικρά", "αυγά", "собака", "кошка", "молоко", "日本語", "猫", "שלום", "مرحبا", "žluťoučký", "çok",
     "table", "window", "garden", "purple", "walking", "xyz", "maison", "perro", "strada", "haus", "fiets", "janela",
     "arrive", "demain", "matin", "kommt", "llega", "chega", "arriva", "komt", "morgen", "domani", "mañana", "amanhã",
     "tomorrow", "slowly", "blue", "rouge", "verde", "grün", "groen", "vermelho", "river", "monte", "brücke", "brug",
@@ -61,7 +71,7 @@ pub fn separator_words(lang: usize) -> &'static [&'static str] {
     &all[lang % 7]
 }
 
-const SENT_END: [&str; 4] = [". ", ".\n", ".  ", ". \t"];
+const SENT_END: [&str; 10] = [". ", ".\n", ".  ", ". \t", "! ", "? ", "!\n", "?! ", "… ", "! "];
 const PUNCT_P: [&str; 24] = [
     ",", ", ", " , ", ".", ". ", ";", "; ", ":", ": ", "!", "! ", "?", "…", " … ", " / ", "/", "(", ") (", " — ", "«", "» ", "%", " & ",
     "...",
@@ -133,6 +143,50 @@ fn exec<L: LangInterpreter>(l: &L, case: &Case, stats: &mut Stats) -> RunResult 
                     case.thr, case.a, case.s, case.b, w, ra, rb
                 ),
             )
+        }
+    }
+
+    // --- a crashed / abandoned scan on this thread must leave nothing behind
+    if !case.abort_words.is_empty() {
+        let toks: Vec<TokSpec> = case.abort_words.iter().map(|w| TokSpec::word(w)).collect();
+        let log = Log::new();
+        log.crash_at.set(case.abort_crash_at);
+        let r = guarded(|| {
+            let src = SimSource { toks: &toks, next: 0, log: &log };
+            log.in_request.set(true);
+            let mut it = find_numbers_iter(src, l, thr);
+            let mut n = 0;
+            for _ in 0..case.abort_requests {
+                if it.next().is_none() {
+                    break;
+                }
+                n += 1;
+            }
+            drop(it);
+            n
+        });
+        match r {
+            Ok(_) => {
+                if log.pulls.get() < toks.len() {
+                    stats.hit("fault.scan_abandoned_mid_stream");
+                }
+            }
+            Err(_) => stats.hit("fault.scan_crashed_in_callback"),
+        }
+        if let (Ok(before), Ok(after)) = (rewrite(l, &whole_in, thr), rewrite(l, &whole_in, thr)) {
+            // `before` here is already after the abort; compare both with the restart oracle's parts
+            let ra = rewrite(l, &case.a, thr).unwrap_or_default();
+            let rb = rewrite(l, &case.b, thr).unwrap_or_default();
+            let restarted = format!("{}{}{}", ra, case.s, rb);
+            if before != restarted || after != restarted {
+                return viol(
+                    "R3-restart-after-aborted-scan",
+                    format!(
+                        "lang={code} thr={} after an aborted scan of {:?} (requests={}, crash_at={}): rewrite(A S B) = {:?} then {:?}, but rewrite(A) S rewrite(B) = {:?}",
+                        case.thr, case.abort_words, case.abort_requests, case.abort_crash_at, before, after, restarted
+                    ),
+                );
+            }
         }
     }
 
@@ -233,17 +287,44 @@ impl Check for C10 {
         } else {
             (String::new(), String::new(), String::new())
         };
-        Case { lang, concrete, thr, a, s, b, x, p, y }
+        let (abort_words, abort_requests, abort_crash_at) = if rng.chance(1, 3) {
+            let mut w = vec![];
+            for _ in 0..rng.range(1, 3) {
+                gen_number_phrase(rng, pool, &mut w);
+            }
+            let crash = if rng.chance(1, 2) { rng.range(1, 30) as u64 } else { 0 };
+            (w.into_iter().map(|s| s.to_string()).collect(), *rng.pick(&[0usize, 1, 1, 2, 3]), crash)
+        } else {
+            (vec![], 0, 0)
+        };
+        Case { lang, concrete, thr, a, s, b, x, p, y, abort_words, abort_requests, abort_crash_at }
     }
 
     fn execute(&self, case: &Case, stats: &mut Stats) -> RunResult {
-        with_lang!(langs(), case.lang, case.concrete, l => exec(l, case, stats))
+        crate::with_fresh_lang!(case.lang, case.concrete, l => exec(l, case, stats))
     }
 
     fn shrink(&self, case: &Case) -> Vec<Case> {
         let mut out = vec![];
         if !case.x.is_empty() {
             out.push(Case { x: String::new(), p: String::new(), y: String::new(), ..case.clone() });
+        }
+        if !case.abort_words.is_empty() {
+            out.push(Case { abort_words: vec![], abort_requests: 0, abort_crash_at: 0, ..case.clone() });
+            for i in 0..case.abort_words.len() {
+                let mut w = case.abort_words.clone();
+                w.remove(i);
+                if !w.is_empty() {
+                    out.push(Case { abort_words: w, ..case.clone() });
+                }
+            }
+            if case.abort_crash_at > 0 {
+                out.push(Case { abort_crash_at: 0, ..case.clone() });
+                out.push(Case { abort_crash_at: case.abort_crash_at - 1, ..case.clone() });
+            }
+            if case.abort_requests > 0 {
+                out.push(Case { abort_requests: case.abort_requests - 1, ..case.clone() });
+            }
         }
         if !case.a.is_empty() || !case.b.is_empty() {
             // keep the punctuation clause only
@@ -353,6 +434,6 @@ impl Check for C10 {
     }
 
     fn fault_kinds(&self) -> Vec<&'static str> {
-        vec!["fault.session_cut"]
+        vec!["fault.session_cut", "fault.scan_abandoned_mid_stream", "fault.scan_crashed_in_callback"]
     }
 }
